@@ -373,9 +373,9 @@ def updateQargsQuery(qargs=None, query=u'',):
                 else:
                     key = queryPart
                     val = u'true'
-                qargs[key] = val
+                qargs[unquote_plus(key)] = val  # keys are quoted below
 
-    qargParts = [u"{0}={1}".format(key, quote_plus(str(val)))
+    qargParts = [u"{0}={1}".format(quote_plus(str(key)), quote_plus(str(val)))
                                    for key, val in qargs.items()]
     query = '&'.join(qargParts)  # only use ampersand since semicolon obsolete
     return (qargs, query)
